@@ -170,7 +170,7 @@ def splitNul : Bytes → Bytes → Option (Bytes × Bytes × Nat)
 /-- `#[brw(pad_size_to = n)]` -/
 @[inline] def padSizeTo (n : Nat) (p : P α) : P α := fun inp c =>
   M.bind' (p inp c) (fun r =>
-    if r.2.pos - c.pos < n then M.pure' (r.1, ⟨inp.drop (c.pos + n), c.pos + n⟩) else M.pure' r)
+    if r.2.pos - c.pos < n then M.pure' (r.1, ⟨c.rest.drop n, c.pos + n⟩) else M.pure' r)
 
 /-- `#[br(restore_position)]` -/
 @[inline] def restorePosition (p : P α) : P α := fun inp c =>
@@ -373,7 +373,7 @@ theorem padSizeTo {n : Nat} {p : P α} {Q : α → Prop} (hp : SafeP B inp p Q) 
   intro c hc; unfold P.padSizeTo
   refine Safe.bind' (hp c hc) (fun r hr => ?_)
   split
-  · exact Safe.pure' ⟨hr.1, by simp only [Cur.Within, List.length_drop]; omega⟩
+  · exact Safe.pure' ⟨hr.1, by simp only [Cur.Within, List.length_drop] at *; omega⟩
   · exact Safe.pure' hr
 
 theorem restorePosition {p : P α} {Q : α → Prop} (hp : SafeP B inp p Q) :
@@ -407,5 +407,123 @@ theorem try? {p : P α} {Q : α → Prop} (hp : SafeP B inp p Q) :
   · next e k he => rw [he] at h1; exact h1.2.elim
 
 end SafeP
+
+/-! ### forward-only parsers: the judgement with progress
+
+`SafePD B inp k p Q`: as `SafeP`, and on success the cursor has advanced by at least `k` bytes
+(`rest` got shorter by ≥ `k`).  Everything except absolute / backward seeks is forward-only; the
+chunk loop of `ZiPatch::apply` needs this to show that its fuel is never exhausted (every chunk
+consumes at least its 4-byte size field). -/
+def SafePD (B : Nat) (inp : Bytes) (k : Nat) (p : P α) (Q : α → Prop) : Prop :=
+  ∀ c : Cur, c.Within inp → Safe B (p inp c) (fun r => Q r.1 ∧ r.2.rest.length + k ≤ c.rest.length)
+
+namespace SafePD
+variable {B : Nat} {inp : Bytes}
+
+theorem toSafeP {k : Nat} {p : P α} {Q : α → Prop} (h : SafePD B inp k p Q) : SafeP B inp p Q :=
+  fun c hc => Safe.mono (h c hc) (fun r hr => ⟨hr.1, by simp only [Cur.Within] at *; omega⟩)
+
+theorem weaken {k k' : Nat} {p : P α} {Q : α → Prop} (h : SafePD B inp k p Q) (hk : k' ≤ k) :
+    SafePD B inp k' p Q :=
+  fun c hc => Safe.mono (h c hc) (fun r hr => ⟨hr.1, by omega⟩)
+
+theorem pure {a : α} {Q : α → Prop} (h : Q a) : SafePD B inp 0 (Pure.pure a : P α) Q :=
+  fun _ _ => Safe.pure' ⟨h, Nat.le_refl _⟩
+theorem fail {k : Nat} {Q : α → Prop} : SafePD B inp k (P.fail : P α) Q := fun _ _ => Safe.fail
+
+/-- progress adds up; the common case is `k₂ = 0` -/
+theorem bindK {k : Nat} {p : P α} {f : α → P β} {Q : α → Prop} {R : β → Prop}
+    (hp : SafePD B inp k p Q) (hf : ∀ a, Q a → SafePD B inp 0 (f a) R) : SafePD B inp k (p >>= f) R :=
+  fun c hc => Safe.bind' (hp c hc) (fun r hr =>
+    Safe.mono (hf r.1 hr.1 r.2 (by simp only [Cur.Within] at *; omega)) (fun r' hr' => ⟨hr'.1, by omega⟩))
+theorem bind {p : P α} {f : α → P β} {Q : α → Prop} {R : β → Prop}
+    (hp : SafePD B inp 0 p Q) (hf : ∀ a, Q a → SafePD B inp 0 (f a) R) : SafePD B inp 0 (p >>= f) R :=
+  bindK hp hf
+
+theorem mono {k : Nat} {p : P α} {Q Q' : α → Prop} (h : SafePD B inp k p Q) (hq : ∀ a, Q a → Q' a) :
+    SafePD B inp k p Q' := fun c hc => Safe.mono (h c hc) (fun r hr => ⟨hq r.1 hr.1, hr.2⟩)
+theorem triv {k : Nat} {p : P α} {Q : α → Prop} (h : SafePD B inp k p Q) : SafePD B inp k p (fun _ => True) :=
+  mono h (fun _ _ => trivial)
+
+theorem lift {m : M α} {Q : α → Prop} (h : Safe B m Q) : SafePD B inp 0 (P.lift m) Q :=
+  fun _ _ => Safe.bind' h (fun _ ha => Safe.pure' ⟨ha, Nat.le_refl _⟩)
+theorem alloc {n : Nat} (h : n ≤ B) : SafePD B inp 0 (P.alloc n) (fun _ => True) := lift (Safe.alloc h)
+theorem guard {c : Bool} : SafePD B inp 0 (P.guard c) (fun _ => c = true) := by
+  cases c
+  · exact fail
+  · exact fun _ _ => Safe.pure' ⟨rfl, Nat.le_refl _⟩
+theorem ofOption {o : Option α} {Q : α → Prop} (h : ∀ a, o = some a → Q a) :
+    SafePD B inp 0 (P.ofOption o) Q := by
+  cases o with
+  | none => exact fail
+  | some a => exact fun _ _ => Safe.pure' ⟨h a rfl, Nat.le_refl _⟩
+
+theorem skip {n : Nat} : SafePD B inp 0 (P.skip n) (fun _ => True) :=
+  fun c _ => Safe.pure' ⟨trivial, by simp only [List.length_drop]; omega⟩
+
+theorem take {n : Nat} : SafePD B inp n (P.take n) (fun r => r.length = n) := by
+  intro c _; unfold P.take; dsimp only; split
+  · next h =>
+    refine Safe.pure' ⟨h, ?_⟩
+    simp only [List.splitAt_eq, List.length_take, List.length_drop] at *; omega
+  · exact Safe.fail
+
+theorem u8 : SafePD B inp 1 P.u8 (fun _ => True) := by
+  intro c _; unfold P.u8; split
+  · exact Safe.fail
+  · next h => exact Safe.pure' ⟨trivial, by simp only [h, List.length_cons]; omega⟩
+theorem u16be : SafePD B inp 2 P.u16be (fun _ => True) := by
+  intro c _; unfold P.u16be; split
+  · next h => exact Safe.pure' ⟨trivial, by simp only [h, List.length_cons]; omega⟩
+  · exact Safe.fail
+theorem u32be : SafePD B inp 4 P.u32be (fun _ => True) := by
+  intro c _; unfold P.u32be; split
+  · next h => exact Safe.pure' ⟨trivial, by simp only [h, List.length_cons]; omega⟩
+  · exact Safe.fail
+theorem u32le : SafePD B inp 4 P.u32le (fun _ => True) := by
+  intro c _; unfold P.u32le; split
+  · next h => exact Safe.pure' ⟨trivial, by simp only [h, List.length_cons]; omega⟩
+  · exact Safe.fail
+theorem u64be : SafePD B inp 8 P.u64be (fun _ => True) := by
+  intro c _; unfold P.u64be; split
+  · next h => exact Safe.pure' ⟨trivial, by simp only [h, List.length_cons]; omega⟩
+  · exact Safe.fail
+theorem u64le : SafePD B inp 8 P.u64le (fun _ => True) := by
+  intro c _; unfold P.u64le; split
+  · next h => exact Safe.pure' ⟨trivial, by simp only [h, List.length_cons]; omega⟩
+  · exact Safe.fail
+
+theorem vecU8 {n : Nat} (h : n ≤ B) (h63 : n < 2 ^ 63) :
+    SafePD B inp n (P.vecU8 n) (fun r => r.length = n) := by
+  intro c hc; unfold P.vecU8
+  have : ¬ n ≥ 2 ^ 63 := by omega
+  simp only [this, if_false]
+  exact Safe.bind' (Safe.alloc h) (fun _ _ => take c hc)
+
+theorem vecU8Bounded {n : Nat} (hB : 2 * inp.length + 32 ≤ B) :
+    SafePD B inp n (P.vecU8Bounded n) (fun r => r.length = n ∧ n ≤ inp.length) := by
+  intro c hc; unfold P.vecU8Bounded; dsimp only
+  have hw := SafeP.splitAt_within (n := n) hc
+  refine Safe.bind' (Safe.alloc (by omega)) (fun _ _ => ?_)
+  split
+  · next h =>
+    refine Safe.pure' ⟨⟨h, by omega⟩, ?_⟩
+    simp only [List.splitAt_eq, List.length_take, List.length_drop] at *; omega
+  · exact Safe.fail
+
+theorem padSizeTo {n : Nat} {p : P α} {Q : α → Prop} (hp : SafePD B inp 0 p Q) :
+    SafePD B inp 0 (P.padSizeTo n p) Q := by
+  intro c hc; unfold P.padSizeTo
+  refine Safe.bind' (hp c hc) (fun r hr => ?_)
+  split
+  · exact Safe.pure' ⟨hr.1, by simp only [List.length_drop]; omega⟩
+  · exact Safe.pure' hr
+
+theorem restorePosition {k : Nat} {p : P α} {Q : α → Prop} (hp : SafePD B inp k p Q) :
+    SafePD B inp 0 (P.restorePosition p) Q := by
+  intro c hc; unfold P.restorePosition
+  exact Safe.bind' (hp c hc) (fun r hr => Safe.pure' ⟨hr.1, Nat.le_refl _⟩)
+
+end SafePD
 
 end Physis
